@@ -320,7 +320,7 @@ def _eval_fileobj(ctx, case):
                 same = G.text_bytes(ri[1]).decode("latin-1") == rm[1]
             else:
                 same = ri == rm
-            if not same or pi != pm or ci != cm:
+            if not same or pi != pm or (ci != cm and ci is not G.MISSING):
                 ctx.disagree(case, f"GroFile(file object) op #{i} {case['rops'][i]!r}", [ri, pi, ci], [rm, pm, cm])
                 return
     ctx.model.ask("gro_fileobj", f"{hexs(fmode)} {pos} {hexs(data)} {G.rops_tokens(case['rops'])}", cb, case)
